@@ -150,6 +150,32 @@ def alias_free(kind, c1, c2):
     return out
 
 
+def queue_keys_decode(kind):
+    """Keys generated by push (an integer, or '<prefix>-<15 digits>' text, stored with raw = 1 without going
+    through Disk.put) are decoded by iteration / peekitem with Disk.get: they must come back as themselves."""
+    ctx = context('core')
+    out = []
+    for kcls in ('int', 'str'):
+        info = {}
+
+        def run(st, kcls=kcls):
+            it = ctx.interp(st)
+            disk = make_disk(ctx, st, kind)
+            key, _ = sym_value(kcls, 'qk')
+            info['key'] = key
+            return it.call(it.getattr(disk, 'get'), [key, 1], {})
+        for n, p in enumerate(explore(run)):
+            name = 'C02.iter.decodes_queue_key[%s][%s]#%d' % (kind, kcls, n)
+            if p.kind != 'return':
+                out.append(Result(name, 'post', 'refuted', ms=0, backend='engine', function=kind + '.get', path=p.decisions,
+                                  detail='Disk.get raises %s on a key that push stored' % p.value.cls,
+                                  replay={'recipe': {'func': 'c02_jsondisk_queue_keys'}}))
+            else:
+                out.append(discharge(name, 'post', p.pc, same_value_and_type(p.value, info['key']), function=kind + '.get',
+                                     path=p.decisions))
+    return out
+
+
 def zb(raw):
     if isinstance(raw, bool):
         return z3.BoolVal(raw)
@@ -165,6 +191,7 @@ def tasks(tier):
             ts.append(('contracts.c02', 'put_get_identity', (kind, c)))
         for c1, c2 in itertools.combinations_with_replacement(KEY_CLASSES, 2):
             ts.append(('contracts.c02', 'alias_free', (kind, c1, c2)))
+        ts.append(('contracts.c02', 'queue_keys_decode', (kind,)))
     return ts
 
 
